@@ -1,1 +1,6 @@
 import Sympler.Basic
+import Sympler.Gen.FuncCompileGen
+import Sympler.FuncCompile
+import Sympler.FuncCompileLemmas
+import Sympler.Stages
+import Sympler.StagesLemmas
